@@ -16,6 +16,24 @@ Sub-checks
       of an object give an equal object of the same type with equal hash, and
       a generated sequence of mutations of the copy (restricted to the depth
       the kind of copy promises) leaves the original untouched.
+  sequences
+      ONE object lives through a short history: a first observation (hash(),
+      member of a set, key of a dict, ==/!=, hash() of every nested object
+      and child dictionary, repr(), or none), then 1..3 rounds of [derive a
+      copy by one of the six copy methods,] 1..3 in-place modifications of
+      the object or of one of its derived copies through the public routes
+      at every nesting level (attribute assignment, every modifying method of
+      every child dictionary - also popitem()/clear()/pop()/setdefault()/
+      update() -, in-place changes of array value lists, of the path, of
+      value objects and of child objects held in the dictionaries down to
+      level 3) and a check.  Oracle: observers are pure - the same history
+      without any observation is run on a freshly built "twin" that is never
+      hashed or compared before the check; the object and the twin must then
+      have the same public state, be equal in both directions (!= false),
+      have equal hashes and be one set member / dict key.  (Anything that is
+      kept between two calls - a cached hash value, a cached folded name, a
+      flag - and not invalidated by one of the modification routes shows up
+      as a difference to the twin.)
 """
 
 import copy
@@ -50,7 +68,13 @@ RULE = (
     "to 4 mutation steps on the copy.  Non-trivial = the pair (a, b) consists "
     "of two distinct Python objects related by a case/order/type variant or "
     "by a single-attribute mutation (eq_*), or a copy that is mutated at "
-    "least once (copies; CIMDateTime copies count as they are immutable).  "
+    "least once (copies; CIMDateTime copies count as they are immutable), or "
+    "a history with at least one modification after an observation "
+    "(sequences: object of one of the 10 mutable kinds x first observation "
+    "x 1..3 rounds of [copy derivation] + 1..3 in-place modifications + "
+    "check against the never-observed twin; classes pre:*, mut:<depth>, "
+    "hashed-then:<depth> = modification of an object whose hash had been "
+    "taken before, derive:<method>[:of-hashed]).  "
     "Distinct = distinct generated example.")
 ASSUMPTIONS = [
     "no NaN anywhere in the objects (the property excludes NaN)",
@@ -82,6 +106,18 @@ ASSUMPTIONS = [
     "[the qualifier objects] are copied'); child objects in dictionaries and "
     "keybinding values are documented as shared and are not touched.  "
     "copy.copy(): only attribute rebinding.  deepcopy/pickle: anything",
+    "sequences: the modifications are the documented ways to manipulate a "
+    "CIM object ('mutable', attributes settable, child dictionaries "
+    "manipulated through the dictionary interface; _cim_obj.py module "
+    "docstring: after a modification the object 'has the same hash value as "
+    "the equal' other object); nothing is asserted about a set/dict that "
+    "contains the object WHILE it is modified (documented as the user's "
+    "business), only about hash()/==/membership evaluated afterwards",
+    "sequences: whether copy.copy() shares an EMPTY child dictionary with "
+    "the original depends on whether that dictionary was ever read (lazy "
+    "initialization in the getters) and is not promised either way: all "
+    "child dictionaries of the source are read (in the observed and in the "
+    "twin run) before a copy is derived; CIMDateTime is left out (immutable)",
 ]
 SENSITIVITY = [
     "_utils._eq_name compares case-sensitively -> "
@@ -113,6 +149,11 @@ SENSITIVITY = [
     "_eq_name uses casefold() while _hash_name uses lower() (seeded "
     "change2) -> eq_*/hash:equal-objects-differ:<kind> (special-case-"
     "mapping name variants, law-only)",
+    "NocaseDict caches its hash value and invalidates it only in "
+    "__setitem__/__delitem__/pop (seeded change6; popitem(), clear() and "
+    "in-place changes of child objects leave it stale) -> sequences/"
+    "seq:hash-stale:{own,nested}:<kind> for all 10 mutable kinds (hundreds "
+    "of hits per kind in the quick tier)",
     "control: _CIMComparisonMixin.__ne__ = not other.__eq__(self) "
     "(semantically equivalent) -> no new signature",
     "control: CIMParameter.__hash__ drops array_size (still lawful: equal "
